@@ -107,6 +107,21 @@ def run(tier, seed):
                       "Client.Start on line %r with config %s: observed %s, which Handshake!Decide / the property do not allow"
                       % (o.get("raw"), json.dumps(o["cfg"]), json.dumps({k: out[k] for k in ("ok", "proto", "net", "addr_nonnil", "addr_matches", "version_matches", "killed", "panic", "ms", "hung")})),
                       {"case": by[name], "observation": o})
+    def flip_ok(o):
+        o["out"]["ok"] = not o["out"]["ok"]
+        return o
+
+    def slow(o):
+        o["out"]["ms"] = o["out"]["limit_ms"] + 1
+        return o
+
+    def unkilled(o):
+        if o["out"]["ok"]:
+            return None
+        o["out"]["killed"] = False
+        return o
+    rep.coverage["binding_selftest_mutations_flagged"] = vlib.selftest_judge("TraceHandshake", "trace_handshake.cfg", [o for o in obs_list if o["name"] not in dev][:50],
+                                                                            [("ok flipped", flip_ok), ("latency over the limit", slow), ("runner not killed on error", unkilled)], "c01")
     distinct = len(set((tuple(sorted(c["line"].items())), tuple(sorted(c["cfg"].items()))) for c in cases))
     rep.coverage.update({
         "states": r1["distinct"], "transitions": r1["generated"], "traces_validated_against_impl": len(obs_list),
